@@ -13,12 +13,13 @@ import (
 	"testing"
 	"time"
 
+	pwebrtc "github.com/pion/webrtc/v4"
 	"verif.local/vmon"
 )
 
 type c03bDecision struct {
 	Seq                              int
-	ID, User, Action, Path, Protocol string
+	ID, User, Action, Path, Protocol, IP string
 	Allowed                          bool
 }
 
@@ -47,7 +48,7 @@ func TestVerifC03Servers(t *testing.T) {
 		}
 		mu.Lock()
 		ok := allow[in.User+":"+in.Password+"|"+in.Action+"|"+in.Path]
-		log = append(log, c03bDecision{len(log), id, in.User, in.Action, in.Path, in.Protocol, ok})
+		log = append(log, c03bDecision{len(log), id, in.User, in.Action, in.Path, in.Protocol, in.IP, ok})
 		mu.Unlock()
 		if ok {
 			w.WriteHeader(http.StatusOK)
@@ -68,8 +69,8 @@ func TestVerifC03Servers(t *testing.T) {
 			}
 		}
 	}
-	b := bbStart(t, map[string]bool{"rtsp": true, "hls": true, "api": true},
-		fmt.Sprintf("authMethod: http\nauthHTTPAddress: http://%s/auth\nauthHTTPExclude:\n  - action: api\nhlsAlwaysRemux: no\npaths:\n  p0:\n  p1:\n  \"~^live/(.+)$\":\n", ln.Addr().String()))
+	b := bbStart(t, map[string]bool{"rtsp": true, "hls": true, "api": true, "webrtc": true},
+		fmt.Sprintf("authMethod: http\nauthHTTPAddress: http://%s/auth\nauthHTTPExclude:\n  - action: api\nhlsAlwaysRemux: no\nhlsTrustedProxies: ['127.0.0.1']\nwebrtcTrustedProxies: ['127.0.0.1']\npaths:\n  p0:\n  p1:\n  \"~^live/(.+)$\":\n", ln.Addr().String()))
 	defer b.close()
 	hc := &http.Client{Timeout: 20 * time.Second}
 	// every id the API ever shows as source / reader: id -> "action|path"
@@ -122,7 +123,9 @@ func TestVerifC03Servers(t *testing.T) {
 			}
 		}
 	}()
-	ops := r.N(120, 3000)
+	forwarded := map[string]string{}
+	var fwdMu sync.Mutex
+	ops := r.N(150, 3000)
 	var wg sync.WaitGroup
 	sem := make(chan struct{}, 24)
 	var cmu sync.Mutex
@@ -130,7 +133,8 @@ func TestVerifC03Servers(t *testing.T) {
 	for i := 0; i < ops; i++ {
 		c := creds[rng.IntN(len(creds))]
 		n := names[rng.IntN(len(names))]
-		kind := rng.IntN(5)
+		kind := rng.IntN(6)
+		fwd := fmt.Sprintf("10.%d.%d.%d", 1+rng.IntN(200), rng.IntN(250), 1+rng.IntN(250)) // the client address announced by the (trusted) proxy
 		hold := time.Duration(60+rng.IntN(200)) * time.Millisecond
 		wg.Add(1)
 		sem <- struct{}{}
@@ -163,8 +167,39 @@ func TestVerifC03Servers(t *testing.T) {
 					}
 					rd.close()
 				}
+			case 5: // WebRTC publish / read through a trusted proxy
+				pc, perr := pwebrtc.NewPeerConnection(pwebrtc.Configuration{})
+				key = "webrtc offer error"
+				if perr == nil {
+					pc.AddTransceiverFromKind(pwebrtc.RTPCodecTypeVideo, pwebrtc.RTPTransceiverInit{Direction: pwebrtc.RTPTransceiverDirectionSendonly}) //nolint:errcheck
+					offer, oerr := pc.CreateOffer(nil)
+					if oerr == nil {
+						ep := []string{"whip", "whep"}[i%2]
+						req, _ := http.NewRequest(http.MethodPost, b.url("webrtc", "/"+n+"/"+ep), strings.NewReader(offer.SDP))
+						req.Header.Set("Content-Type", "application/sdp")
+						req.Header.Set("X-Forwarded-For", fwd)
+						if c[0] != "" {
+							req.SetBasicAuth(c[0], c[1])
+						}
+						fwdMu.Lock()
+						forwarded[fwd] = "webrtc"
+						fwdMu.Unlock()
+						res, err2 := hc.Do(req)
+						key = "webrtc request failed"
+						if err2 == nil {
+							io.Copy(io.Discard, res.Body) //nolint:errcheck
+							res.Body.Close()
+							key = fmt.Sprintf("webrtc %s -> %d", ep, res.StatusCode)
+						}
+					}
+					pc.Close() //nolint:errcheck
+				}
 			default:
 				req, _ := http.NewRequest(http.MethodGet, b.url("hls", "/"+n+"/index.m3u8"), nil)
+				req.Header.Set("X-Forwarded-For", fwd)
+				fwdMu.Lock()
+				forwarded[fwd] = "hls"
+				fwdMu.Unlock()
 				if c[0] != "" {
 					req.SetBasicAuth(c[0], c[1])
 				}
@@ -210,11 +245,20 @@ func TestVerifC03Servers(t *testing.T) {
 			r.Violation("session-attached-without-admission:"+f[2]+":"+f[0], fmt.Sprintf("the Control API showed session %s (%s) as %s of path %q, but the authentication server never admitted that session for (%s, %q); requests it received for this session: %v", id, f[2], map[string]string{"publish": "the source", "read": "a reader"}[f[0]], f[1], f[0], f[1], other), nil)
 		}
 	}
+	// the address the authentication server is asked about is the client's (the one a trusted proxy announces), not the proxy's
+	for _, d := range decisions {
+		if d.Protocol != "webrtc" && d.Protocol != "hls" {
+			continue
+		}
+		if _, ok := forwarded[d.IP]; !ok {
+			r.Violation("authentication-asked-about-the-proxy-address:"+d.Protocol+":"+d.Action, fmt.Sprintf("a %s %s request for path %q arrived through the trusted proxy 127.0.0.1 with X-Forwarded-For naming the client; the authentication server was asked about address %q, which is none of the announced client addresses", d.Protocol, d.Action, d.Path, d.IP), nil)
+		}
+	}
 	for k, v := range outcomes {
 		r.Sample(map[string]any{"client_outcome": k, "times": v})
 	}
 	if len(seen) < 5 {
 		r.Inconclusive("only %d sessions were ever seen attached: the monitor observed too little", len(seen))
 	}
-	r.Finish("a real Core (RTSP, HLS, Control API) with authMethod http pointing at a server run by the harness that decides from a random table (credentials x action x path) and logs every request with the session id; 24 concurrent real clients (gortsplib publishers / readers, HLS requests) with three credential sets on static, regular-expression and unconfigured names; the Control API paths list is polled every 15 ms. Oracle: every session id ever shown as the source or a reader of a path has an admitted authentication request for (that id, the matching action, that path name). non-trivial = distinct client operation")
+	r.Finish("a real Core (RTSP, HLS, Control API) with authMethod http pointing at a server run by the harness that decides from a random table (credentials x action x path) and logs every request with the session id; 24 concurrent real clients (gortsplib publishers / readers, HLS requests and WHIP / WHEP offers, the latter two through a trusted proxy address with X-Forwarded-For naming a unique client address) with three credential sets on static, regular-expression and unconfigured names; the Control API paths list is polled every 15 ms. Oracle: every session id ever shown as the source or a reader of a path has an admitted authentication request for (that id, the matching action, that path name); every HLS / WebRTC authentication request names one of the announced client addresses, never the proxy's. non-trivial = distinct client operation")
 }
